@@ -169,39 +169,40 @@ def r15_4(ctx):
     outs = Outcomes(OK((es["SUCCESS"],)), OK((sl["OK"],)), *[OK((m,)) for m in rejections(ctx)], RAISE("TimeoutError"), RAISE("EzspError"), RAISE("CancelledError"))
     px = PX(repo, models=[("self._ezsp.setMulticastTableEntry", outs)], inline=same_class())
 
-    def setup():
-        return (self_obj(cls, {"_multicast": {Sym("g"): (entry_obj(ctx, 1, Sym("g")), 3), Sym("h"): (entry_obj(ctx, 1, Sym("h"), "entry_h"), 4)},
-                               "_available": {7}}), {"group_id": Sym("g")})
+    for gi in (3, 250):  # a small and a large table index (the table holds up to 255 entries)
+        def setup():
+            return (self_obj(cls, {"_multicast": {Sym("g"): (entry_obj(ctx, 1, Sym("g")), gi), Sym("h"): (entry_obj(ctx, 1, Sym("h"), "entry_h"), 4)},
+                                   "_available": {7}}), {"group_id": Sym("g")})
 
-    for p in px.explore(f, setup):
-        ctx.paths += 1
-        st = p.store["self"]
-        mc, avail = st.get("_multicast"), st.get("_available")
-        wr = [e for e in p.events if e.kind == "await"]
-        key = f"unsubscribe:write={str(wr[0].extra)[:40] if wr else None}"
-        bad = None
-        if len(wr) != 1:
-            bad = f"{len(wr)} table writes"
-        else:
-            idx, ent = wr[0].args[0], wr[0].args[1] if len(wr[0].args) > 1 else None
-            accepted = isinstance(wr[0].extra, tuple) and is_ok(ctx, wr[0].extra[0])
-            if idx != 3 or not (isinstance(ent, Obj) and ent.fields.get("endpoint") == 0):
-                bad = f"clears index {idx!r} with entry {ent!r}; must write endpoint 0 at the group's index 3"
-            elif Sym("h") not in mc or mc[Sym("h")][1] != 4:
-                bad = "another group's record is disturbed"
-            elif accepted:
-                if Sym("g") in mc or avail != {7, 3} or not (p.terminal == "return" and is_ok(ctx, p.value)):
-                    bad = f"accepted: groups {list(mc)}, free {sorted(avail)}, result {p.terminal} {p.value!r}"
+        for p in px.explore(f, setup):
+            ctx.paths += 1
+            st = p.store["self"]
+            mc, avail = st.get("_multicast"), st.get("_available")
+            wr = [e for e in p.events if e.kind == "await"]
+            key = f"unsubscribe:write={str(wr[0].extra)[:40] if wr else None}"
+            bad = None
+            if len(wr) != 1:
+                bad = f"{len(wr)} table writes"
             else:
-                if Sym("g") not in mc or mc[Sym("g")][1] != 3 or avail != {7}:
-                    bad = (f"write {'failed' if p.terminal == 'raise' else 'rejected'}: host now reports groups {[group_of(k) for k in mc]} and free "
-                           f"indices {sorted(avail)}; nothing may change (the NCP still has the group)")
-                elif p.terminal == "return" and is_ok(ctx, p.value):
-                    bad = "rejected write reported as OK"
-        if bad:
-            ctx.violation(f"unsubscribe:{'raise' if p.terminal == 'raise' else 'return'}", f"{key}: {bad}", func=f, trace=p.trace(30))
-        else:
-            ctx.ok(1, key)
+                idx, ent = wr[0].args[0], wr[0].args[1] if len(wr[0].args) > 1 else None
+                accepted = isinstance(wr[0].extra, tuple) and is_ok(ctx, wr[0].extra[0])
+                if idx != gi or not (isinstance(ent, Obj) and ent.fields.get("endpoint") == 0):
+                    bad = f"clears index {idx!r} with entry {ent!r}; must write endpoint 0 at the group's index {gi}"
+                elif Sym("h") not in mc or mc[Sym("h")][1] != 4:
+                    bad = "another group's record is disturbed"
+                elif accepted:
+                    if Sym("g") in mc or avail != {7, gi} or not (p.terminal == "return" and is_ok(ctx, p.value)):
+                        bad = f"accepted: groups {list(mc)}, free {sorted(avail)}, result {p.terminal} {p.value!r}"
+                else:
+                    if Sym("g") not in mc or mc[Sym("g")][1] != gi or avail != {7}:
+                        bad = (f"write {'failed' if p.terminal == 'raise' else 'rejected'}: host now reports groups {[group_of(k) for k in mc]} and free "
+                               f"indices {sorted(avail)}; nothing may change (the NCP still has the group)")
+                    elif p.terminal == "return" and is_ok(ctx, p.value):
+                        bad = "rejected write reported as OK"
+            if bad:
+                ctx.violation(f"unsubscribe:{'raise' if p.terminal == 'raise' else 'return'}", f"{key}: {bad}", func=f, trace=p.trace(30))
+            else:
+                ctx.ok(1, key)
     for p in PX(repo, inline=same_class()).explore(f, lambda: (self_obj(cls, {"_multicast": {}, "_available": {1}}), {"group_id": Sym("g")})):
         aw = [e for e in p.events if e.kind == "await"]
         ctx.require(p.terminal == "return" and isinstance(p.value, Member) and not is_ok(ctx, p.value) and not aw, "unsubscribe:unknown",
@@ -233,6 +234,12 @@ def r15_5(ctx):
 
     paths = px.explore(f, setup)
     ctx.paths += len(paths)
+    unread = sorted({0, 1, 2} - {(e.args[0] if e.args else e.kwargs.get("index")) for p in paths for e in p.events
+                               if e.kind == "await" and e.what.endswith("getMulticastTableEntry")})
+    if unread:
+        ctx.violation("scan:unread-index", f"the table scan never reads index {unread} of a table of size 3: those indices are neither free nor used afterwards",
+                      func=f, trace=paths[0].trace(20) if paths else None)
+        return
     ctx.anchor(len(paths) == 27, f"_initialize explored {len(paths)} of 27 answer combinations")
     for p in paths:
         st = p.store["self"]
